@@ -328,7 +328,7 @@ def tie_family(rnd, n):
 # ---- zoo of decay structures (shared by the einsum harvest and the strategies part) -------------------
 
 def zoo_configs():
-    """Small 3-body configurations: spin-0 / 1/2 / 1 / 3/2 / 2 particles, 2-3 chains.
+    """Small 3-body configurations: spin-0 / 1/2 / 1 / 3/2 / 2 particles, 2-3 chains, and one 4-body cascade with a shared decay object.
     Particle names are distinct between the configurations: tf_pwa caches per-decay quantities (lru_cache on methods of
     objects that compare equal by NAME), so two different models with the same names in one process are not independent
     (that is a matter of property C19, kept out of this check)."""
@@ -386,6 +386,19 @@ def zoo_configs():
                 R3: {"J": 1, "Par": 1, "m0": 2.42, "g0": 0.03},
             },
         }
+    z["cas4"] = {  # 4-body cascade: the decay Qa -> Qx Fe is ONE object shared by both chains (state kept on a decay object,
+        # e.g. mask_factor of temp_total_gls_one, is visited once per chain); it has two partial waves, the second one free
+        "order": ["Fb", "Fc", "Fd", "Fe"],
+        "decay": {"Qa": [["Qx", "Fe"]], "Qx": [["Qbc", "Fd"], ["Qbd", "Fc"]], "Qbc": ["Fb", "Fc"], "Qbd": ["Fb", "Fd"]},
+        "particle": {
+            "$top": {"Qa": {"J": 1, "P": -1, "mass": 5.3}},
+            "$finals": {"Fb": {"J": 1, "P": -1, "mass": 0.5}, "Fc": {"J": 0, "P": -1, "mass": 0.3},
+                        "Fd": {"J": 0, "P": -1, "mass": 0.2}, "Fe": {"J": 0, "P": -1, "mass": 0.14}},
+            "Qx": {"J": 1, "Par": 1, "m0": 3.5, "g0": 0.3},
+            "Qbc": {"J": 1, "Par": 1, "m0": 1.5, "g0": 0.2},
+            "Qbd": {"J": 1, "Par": 1, "m0": 1.4, "g0": 0.25},
+        },
+    }
     return z
 
 
